@@ -20,10 +20,22 @@ def _tables():
     return acts, keys
 
 
+_CACHE = os.path.join(_HERE, "_c19_tables.json")
 try:
     ACTS, KEYNAMES = _tables()
-except Exception:                           # the extractor stage reports the failure; keep the module importable
-    ACTS, KEYNAMES = [("abort", "EvActAbort", "none", ""), ("execute", "EvActExecute", "reqStr", "")], ["ctrl-a", "f1"]
+    try:
+        import json as _json
+        _txt = _json.dumps({"acts": [list(a) for a in ACTS], "keys": KEYNAMES}, indent=0, sort_keys=True)
+        if not os.path.exists(_CACHE) or open(_CACHE).read() != _txt:
+            open(_CACHE, "w").write(_txt)
+    except Exception:
+        pass
+except Exception:
+    # the translator does not understand the current source (the runner says so): the generator keeps using the tables of the
+    # last tree it understood (committed cache), so that the correspondence stream still exercises the whole action / key table
+    import json as _json
+    _c = _json.load(open(_CACHE))
+    ACTS, KEYNAMES = [tuple(a) for a in _c["acts"]], _c["keys"]
 
 PLAIN = [a[0] for a in ACTS if a[2] == "none"]
 INTS = [a[0] for a in ACTS if a[2] == "int1"]
